@@ -171,6 +171,9 @@ func c09CheckReadAt(viso *pfs.VirtualISO, img []byte, off int64, n int) error {
 	if got == n && err != nil {
 		return hx.Failf("readat-contract", "ReadAt(len %d, off %d) filled the buffer but returned err=%v", n, off, err)
 	}
+	if got < n && err == nil {
+		return hx.Failf("readat-contract", "ReadAt(len %d, off %d) returned %d bytes without an error: a positional read that comes back short must say why (io.EOF)", n, off, got)
+	}
 	if got < n && err != nil && err != io.EOF {
 		return hx.Failf("readat-contract", "ReadAt(len %d, off %d) short read with err=%v (want nil or EOF)", n, off, err)
 	}
